@@ -111,10 +111,10 @@ func propSpecs() map[string]*PropSpec {
 	})
 	add(&PropSpec{
 		ID: "C10", Title: "source positions in tokens and syntax trees are exact",
-		Quick:    append(append(append(tokRuns("H_C10", 5, 0), seeds("H_C10seed", 1)...), tokRuns("H_C10err", 4, 0)...), append(seeds("H_C10errseed", 1), rs("H_C10tab", 0), rs("H_C10tab", 1), rs("H_C10tab", 2), rs("H_C10tab", 3), rs("H_C10tab", 4))...),
-		Thorough: append(append(append(append(tokRuns("H_C10", 6, 0), seeds("H_C10seed", 1)...), seeds("H_C10seed", 2)...), tokRuns("H_C10err", 5, 0)...), append(seeds("H_C10errseed", 2), rs("H_C10tab", 0), rs("H_C10tab", 1), rs("H_C10tab", 2), rs("H_C10tab", 3), rs("H_C10tab", 4))...),
+		Quick:    append(append(append(tokRuns("H_C10", 5, 0), seeds("H_C10seed", 1)...), tokRuns("H_C10err", 4, 0)...), append(seeds("H_C10errseed", 1), rs("H_C10tab", 0), rs("H_C10tab", 1), rs("H_C10tab", 2), rs("H_C10tab", 3), rs("H_C10tab", 4), rs("H_C10tab", 5), rs("H_C10tab", 6))...),
+		Thorough: append(append(append(append(tokRuns("H_C10", 6, 0), seeds("H_C10seed", 1)...), seeds("H_C10seed", 2)...), tokRuns("H_C10err", 5, 0)...), append(seeds("H_C10errseed", 2), rs("H_C10tab", 0), rs("H_C10tab", 1), rs("H_C10tab", 2), rs("H_C10tab", 3), rs("H_C10tab", 4), rs("H_C10tab", 5), rs("H_C10tab", 6))...),
 		Covers:   []string{"accepted", "rejected", "spans-checked", "partial-tree", "position-checked", "compile-error-message"},
-		Bounds: map[string]string{"quick": "success part: all accepted token sequences of length <= 5 over the full vocabulary and 21 seed programs with one arbitrary corruption; failure part: all rejected token sequences of length <= 4 and the rejected corruptions of the seeds: every span of the partial tree (fields and Span() of every node) and every line:column prefix of the parse and compile error messages; 5 failing programs with two gaps of 2 arbitrary bytes over {space, tab, newline} (tab stops)",
+		Bounds: map[string]string{"quick": "success part: all accepted token sequences of length <= 5 over the full vocabulary and 21 seed programs with one arbitrary corruption; failure part: all rejected token sequences of length <= 4 and the rejected corruptions of the seeds: every span of the partial tree (fields and Span() of every node) and every line:column prefix of the parse and compile error messages; 7 failing programs (two with multi-byte characters ahead of the reported position, one a compile error and one a parse error) with two gaps of 2 arbitrary bytes over {space, tab, newline} (tab stops)",
 			"thorough": "success <= 6, failure <= 5, seeds with one and two corruptions"},
 		Outside: []string{"multi-byte layout between tokens inside token slots (token spans themselves are C09's subject)", "error messages for byte-level garbage (their texts quote symbolic runes and are opaque to the engine)"},
 		Stubs:   []string{tokStub},
@@ -151,7 +151,7 @@ func propSpecs() map[string]*PropSpec {
 			}
 		}
 		for c := int64(0); c <= nCorrupt; c++ {
-			for i := int64(0); i < 37; i++ {
+			for i := int64(0); i < 38; i++ {
 				r = append(r, rs("H_C07seed", i, c))
 			}
 		}
@@ -173,7 +173,7 @@ func propSpecs() map[string]*PropSpec {
 	c05 := func(maxK, nCorrupt int64) []RunSpec {
 		r := tokRuns("H_C05", maxK, 5)
 		for c := int64(0); c <= nCorrupt; c++ {
-			for i := int64(0); i < 37; i++ {
+			for i := int64(0); i < 38; i++ {
 				r = append(r, rs("H_C05seed", i, c))
 			}
 		}
@@ -372,7 +372,7 @@ func propSpecs() map[string]*PropSpec {
 	})
 	seeds13 := func(n int64) []RunSpec {
 		var r []RunSpec
-		for i := int64(0); i < 37; i++ {
+		for i := int64(0); i < 38; i++ {
 			r = append(r, rs("H_C13seed", i, n))
 		}
 		return r
@@ -382,7 +382,7 @@ func propSpecs() map[string]*PropSpec {
 		Quick:    append(append([]RunSpec{rs("H_C13a", 1, 0), rs("H_C13a", 2, 0), rs("H_C13a", 3, 5)}, tokRuns("H_C13b", 5, 0)...), seeds13(1)...),
 		Thorough: append(append(append([]RunSpec{rs("H_C13a", 1, 0), rs("H_C13a", 2, 0), rs("H_C13a", 3, 0), rs("H_C13a", 5, 5)}, tokRuns("H_C13b", 6, 0)...), seeds13(1)...), seeds13(2)...),
 		Covers:   []string{"accepted", "rejected", "breaks-rule", "keeps-rules", "compiled", "compile-error"},
-		Bounds: map[string]string{"quick": "either/or: all byte strings of length <= 2, <= 3 focused, 6 parameter maps; exactly-when: all token sequences of length <= 5 over the full vocabulary and 37 seed programs (calls, joins, lets at depth; nested built-ins with siblings; a query followed by further statements; expression constructs in every operator's argument positions) with one arbitrary corruption",
+		Bounds: map[string]string{"quick": "either/or: all byte strings of length <= 2, <= 3 focused, 6 parameter maps; exactly-when: all token sequences of length <= 5 over the full vocabulary and 38 seed programs (calls, joins, lets at depth; nested built-ins with siblings; built-ins directly under a negation; a query followed by further statements; expression constructs in every operator's argument positions) with one arbitrary corruption",
 			"thorough": "bytes <= 3 (<= 5 focused); token sequences <= 6; seeds with one and two corruptions"},
 		Outside: []string{"render property values (not an expression position of the rule list)", "parameter maps in the exactly-when part (covered by C06)", "programs beyond the bounds"},
 		Stubs:   []string{tokStub},
